@@ -455,10 +455,13 @@ def run(rep, tier):
             raise AnalysisBroken("create_pools: static_priority init parameters have %d arguments" % len(a))
         # the switch cases reuse local names: take the definition that reaches this construction
         src = a[2]
-        if strip(src).get("k") == "var":
+        for _ in range(4):
+            if strip(src).get("k") != "var" or strip(src).get("param"):
+                break
             ri = reaching_init(cp, strip(src)["name"], (b, i))
-            if ri is not None:
-                src = ri
+            if ri is None:
+                break
+            src = ri
         from_cfg = "pika.thread_queue.high_priority_queues" in T(src) or "get_entry_as(" in T(src)
         from_threads = "num_threads_" in T(src)
         if from_threads and not from_cfg:
